@@ -781,6 +781,8 @@ def check_conn_cache(chk, rule):
                        detail='' if ok else 'get_k0_conn stores its result in self.k0_conn whatever the flag: after one raw request every later calc_kT / calc_fint / calc_k0 adds the upper triangle only',
                        sample='PanelAssembly.%s: %s' % (name, norm(c)))
     chk.floor(rule + ' get_k0_conn call sites', n, 2)
+    # ... and what get_k0_conn stores in the cache is the finalized matrix
+    check_finalize_path(chk, rule, rel, 'PanelAssembly', 'get_k0_conn', 'k0_conn')
 
 
 def check_assembly_fint_accumulator(chk, rule):
